@@ -282,11 +282,22 @@ def _payload_of_self(it, env):
     return shapes.payload_shape(it, VClass(info=env.lookup("self").cls))
 
 
+def _remaining(it, env):
+    """Variant of the `*` loop of SuitTupleNamed.from_cbor: the number of list elements not consumed yet (+1: the iteration that runs
+    past the end leaves through IndexError)."""
+    from pyvc.values import VInt
+    from pyvc import plain as P_
+    vl = P_.resolve(it, env.lookup("value_list"))
+    n = vl.n if isinstance(vl, P_.VPList) else VInt(len(vl.items))
+    return VInt(n.e - env.lookup("index").e + 1)
+
+
 COMMON = "suit_generator/suit/types/common.py"
 LOOPS_FROM_CBOR = {
     "SuitKeyValue.from_cbor": dict(value=_payload_of_cls),
     "SuitKeyValueUnnamed.from_cbor": dict(ret=_payload_of_cls),
-    "SuitTupleNamed.from_cbor": dict(__while__=True, value=lambda it, env: AbsListT(InstT([e.value for e in shapes._meta(it, env.lookup("cls").info, "map").entries.values()])), index=Int(0)),
+    "SuitTupleNamed.from_cbor": dict(__while__=True, __decreases__=lambda it, env: _remaining(it, env),
+                                     value=lambda it, env: AbsListT(InstT([e.value for e in shapes._meta(it, env.lookup("cls").info, "map").entries.values()])), index=Int(0)),
     "SuitBitfield.from_cbor": dict(__all_for__=True, value=_payload_of_cls, bitsum=Int(0)),
 }
 
@@ -442,6 +453,8 @@ def candidate_values():
     lists = [[]] + [[a] for a in atoms + wrapped] + [[a, b] for a in atoms[:12] + wrapped[:6] for b in atoms[:14] + wrapped[:6]]
     yield from lists
     yield from ([a, b, c] for a in (1, -16, b"", "a") for b in (b"", 0, None, "a", []) for c in (None, 0, b"", []))
+    dg = cbor2.dumps([-16, bytes(32)])
+    yield from ([dg, x] for x in (0, cbor2.dumps(0), cbor2.dumps(cbor2.CBORTag(17, [b"", {}, None, b""])), cbor2.dumps([b"", {}, None, b""]), cbor2.dumps(cbor2.CBORTag(18, [b"", {}, None, b""]))))
     yield from ([a, b, c, d] for a in (b"", b"\xa0", 1) for b in ({}, 0, []) for c in (None, b"", 0) for d in (b"", [], 0, None))
     keys = list(range(0, 31)) + [99, -1, "x", "#a", b"k", None, 1.5, (1, 2)]
     vals = atoms + wrapped[:10] + [[], [1], {}, {1: 1}, [[]], [b""]]
@@ -482,8 +495,22 @@ def find_witness(cls, what="from_cbor", limit=20000):
             data = cbor2.dumps(v)
         except Exception:
             continue
+        import signal
+
+        class _Hang(BaseException):
+            pass
+
+        def _alarm(signum, frame):
+            raise _Hang()
+        prev_alarm = signal.alarm(0)
+        old_handler = signal.signal(signal.SIGALRM, _alarm)
+        signal.alarm(3)
         try:
             obj = cls.from_cbor(data)
+        except _Hang:
+            if what == "from_cbor":
+                return data, None, TimeoutError("no result within 3 s (hang)")
+            continue
         except ok:
             continue
         except RecursionError:
@@ -492,6 +519,11 @@ def find_witness(cls, what="from_cbor", limit=20000):
             if what == "from_cbor":
                 return data, None, e
             continue
+        finally:
+            signal.alarm(0)
+            signal.signal(signal.SIGALRM, old_handler)
+            if prev_alarm:
+                signal.alarm(prev_alarm)
         if what == "to_obj":
             try:
                 obj.to_obj()
@@ -652,22 +684,39 @@ def _representatives():
             cbor2.CBORTag(1, 0), cbor2.CBORSimpleValue(7), cbor2.dumps([1, 2]), cbor2.dumps({1: 2}), cbor2.dumps(5), cbor2.dumps("t")]
 
 
+def _quiet(*a):
+    pass
+
+
 def parse_cleanly(data, time_limit=10.0):
     """None if the parser returns a model or raises an input error within the limit; else a description."""
     import time
     from suit_generator.suit.envelope import SuitEnvelopeTagged
     ok = _allowed_native()
     t0 = time.time()
-    import sys
-    sys.unraisablehook = lambda *a: None  # a RecursionError inside a finaliser / repr would otherwise dump the whole input to stderr
+    import sys, signal
+    sys.unraisablehook = _quiet  # a RecursionError inside a finaliser / repr would otherwise dump the whole input to stderr
+
+    class _Hang(BaseException):
+        pass
+
+    def _alarm(signum, frame):
+        raise _Hang()
+    old_handler = signal.signal(signal.SIGALRM, _alarm)
+    signal.alarm(4)
     try:
         SuitEnvelopeTagged.from_cbor(data).to_obj()
+    except _Hang:
+        return f"no result within 4 s for {len(data)} input bytes (hang)"
     except ok:
         pass
     except RecursionError as e:
         return f"RecursionError ({len(data)} input bytes)"
     except BaseException as e:  # noqa: BLE001
         return f"{type(e).__name__}: {str(e)[:120]}"
+    finally:
+        signal.alarm(0)
+        signal.signal(signal.SIGALRM, old_handler)
     dt = time.time() - t0
     if dt > time_limit:
         return f"took {dt:.1f}s for {len(data)} bytes"
@@ -751,6 +800,15 @@ def bounded(ctx):
                           "under RLIMIT_AS), run-sequence nesting; must return or raise ValueError/SUITError/CBORDecodeError within 10 s",
                 bound="envelopes created from the shipped examples; 24 representatives per node; nesting depth 10/50/90 (quick) .. 1000 (thorough)", budget_s=100 if quick else 900)
     envs = _sample_envelopes()
+    # the shipped examples are unsigned: add a variant of each with two COSE_Sign1 authentication blocks, so that the block positions exist for replacement
+    import cbor2 as _c
+    for name, data in list(envs)[:2]:
+        t = _c.loads(data)
+        m = dict(t.value)
+        w = list(_c.loads(m[2]))
+        blk = lambda kid: _c.dumps(_c.CBORTag(18, [_c.dumps({1: -7, 4: _c.dumps(kid)}), {}, None, bytes(64)]))
+        m[2] = _c.dumps(w + [blk(5), blk(0x7FFFFFE0)])
+        envs.append((name + "+signed", _c.dumps(_c.CBORTag(107, m))))
     if not envs:
         B.fail("sample-envelopes", {}, "no example envelope could be created")
         return B.done()
@@ -776,6 +834,8 @@ def bounded(ctx):
                 if msg:
                     B.fail("node-replacement-fails-cleanly", {"kind": "bytes", "hex": m.hex(), "envelope": name, "path": str(path), "replacement": repr(r)[:60]}, msg)
         for n in range(0, len(data), 1 if not quick else 7):
+            if B.out_of_time():
+                break
             B.case((name, "trunc", n))
             msg = parse_cleanly(data[:n])
             if msg:
@@ -798,6 +858,8 @@ def bounded(ctx):
         inflated += [bytes([0x5B]) + (2 ** 40).to_bytes(8, "big") + data[:8], bytes([0x9B]) + (2 ** 40).to_bytes(8, "big"), bytes([0xBA]) + (2 ** 31).to_bytes(4, "big"),
                      cbor2.dumps(cbor2.CBORTag(107, {3: b"\x9b" + (2 ** 40).to_bytes(8, "big")}))]
         for k, m in enumerate(inflated):
+            if B.out_of_time():
+                break
             B.case((name, "inflate", k))
             msg = parse_cleanly(m)
             if msg:
